@@ -124,6 +124,12 @@ package flow
 
 // ---- C10: throttling checker, sequential clause set (one caller at a time)
 //@ spec func waiting(r) = r != nil && r.status == base.ResultStatusShouldWait
+// the checker's limits are the rule's, converted to nanoseconds in 64 bits (a queueing limit above 4.29 s must not wrap)
+//@ func NewThrottlingChecker(owner, timeoutMs, statIntervalMs) r
+//@   props C10
+//@   ensures[limits-are-the-rules-in-nanoseconds] r != nil && fresh(r) && r.owner == owner && r.lastPassedTime == 0 && r.maxQueueingTimeNs == timeoutMs * 1000000 && r.statIntervalNs == (statIntervalMs == 0 ? 1000 : statIntervalMs) * 1000000
+//@   modifies nothing
+
 //@ func (c *ThrottlingChecker) DoCheck(resStat, batchCount, threshold) r
 //@   props C10
 // C10 "for any interleaving of concurrent callers", thread-modular part: whatever other callers do to the shared
@@ -312,7 +318,7 @@ package flow
 //@ spec func statReusable(a, b) = b != nil && a.Resource == b.Resource && a.RelationStrategy == b.RelationStrategy && a.RefResource == b.RefResource && a.StatIntervalInMs == b.StatIntervalInMs && needStat(a) && needStat(b)
 
 //@ func (r *Rule) isEqualsTo(newRule) res
-//@   props C14
+//@   props C14, C13
 //@   requires r != nil
 //@   ensures[def] res <==> eqRule(r, newRule)
 //@   ensures[identical-rules-are-equal] newRule != nil && sameButThreshold(r, newRule) && r.Threshold == newRule.Threshold ==> res
@@ -327,7 +333,7 @@ package flow
 // equalIdx is the first old controller whose rule equals r (else -1); reuseStatIdx the first statistic-compatible
 // one before it (else -1)
 //@ func calculateReuseIndexFor(r, oldResTcs) (equalIdx, reuseStatIdx)
-//@   props C14
+//@   props C14, C13
 //@   requires forall j Int :: 0 <= j && j < len(oldResTcs) ==> oldResTcs[j] != nil && oldResTcs[j].rule != nil
 //@   let n = len(oldResTcs)
 //@   ensures[ranges] 0 - 1 <= equalIdx && equalIdx < n && 0 - 1 <= reuseStatIdx && reuseStatIdx < n
